@@ -229,7 +229,8 @@ CHECKS = {
     "C20": dict(
         text="Lean 4 proofs over List Char with abstract token converters, for files of any length: split/join round "
              "trip (last field may contain the delimiter), load_delimited returns the written rows in file order "
-             "skipping column-0 comment lines, wrong column count / unparsable number raise ValueError naming the "
+             "skipping column-0 comment lines (typed corollaries load_<wrapper>_roundtrip for the six delimited wrappers), "
+             "wrong column count / unparsable number raise ValueError naming the "
              "1-based row, blank lines are malformed rows, key/tempo single-line and weight-range rules, ragged and "
              "pattern state machines; loaders compared bit-for-bit (struct.pack) from StringIO, path and open file.",
         note="float(str)/repr(float) and Python's re are trusted; warnings are checked by the oracle only. The two findings (load_ragged_time_series(header=True) did not skip the header; load_patterns raised IndexError on a "
